@@ -472,3 +472,22 @@ Definition cls_all_b (g : graph) : bool :=
      if negb (n_root n) && negb (n_dry n) && negb (n_flat n) && negb (n_cloned n) && stateful n && scope_eqb (n_scope n) Global
      then cls_b g i else true)
     (seq 0 (length (g_nodes g))).
+
+(* ---- the hypotheses of the C02 multi-worker completeness theorem (Proofs/TraverseExitN.v): the retry flags agree with
+        the node flags, and the form of an ordinary (composite, not dry, not cloned, not root) test of a worker is non-zero
+        and not shared by any other node on which that worker's run decision is defined (its own nodes, and the root, dry,
+        flat and clone-source nodes) ---- *)
+Definition ewf_b (g : graph) : bool :=
+  forallb (fun c' =>
+     let n := nd g c' in
+     Bool.eqb (dry (n_cfg n)) (n_dry n) && Bool.eqb (flat (n_cfg n)) (n_flat n) && Bool.eqb (cloned (n_cfg n)) (n_cloned n) &&
+     (if negb (n_flat n) && negb (n_dry n) && negb (n_cloned n) && negb (n_root n) then
+        negb (n_form n =? 0)%N &&
+        forallb (fun v =>
+           forallb (fun c => negb (n_form (nd g c) =? n_form n)%N ||
+                             negb (own g v c || n_root (nd g c) || n_dry (nd g c) || n_flat (nd g c) || n_cloned (nd g c)) ||
+                             Nat.eqb c c')
+                   (seq 0 (length (g_nodes g))))
+          (n_owners n)
+      else true))
+    (seq 0 (length (g_nodes g))).
